@@ -830,9 +830,11 @@ static void judge_phases(const struct twin *tw)
  *   - every kind of CNI (VPS, 8/30-1, 8/30-2) has its own repeat counter; a CNI counts when it has been
  *     received twice in a row, once per run; zero is no CNI
  *   - a confirmed CNI which names another station of the table changes the network: one NETWORK event,
- *     cache cleared; the CNIs remembered for the other carriers belong to the old network and are forgotten
+ *     cache cleared
  *   - a confirmed CNI which is not in the table revokes the identification only if the network was
- *     identified through this very kind of CNI; what the other carriers sent meanwhile is kept
+ *     identified through this very kind of CNI
+ *   - when the network changes or is revoked, the CNIs the other carriers had confirmed belong to the old
+ *     network and are forgotten; a CNI received once so far may be the new network's and is kept
  * Recorded deviations of the library:
  *   Q_STALE    the CNIs remembered for the other carriers survive a change of network, so that a carrier
  *              which was silent on station B still "repeats" A's CNI when the viewer zaps back to A
@@ -892,9 +894,12 @@ static int model_run(int quirks, int clean, struct evrec *log)
 					memset(&m, 0, sizeof m); m.src = -1;
 					m_emit(log, &n, i, VBI_EVENT_NETWORK, &m);      /* the revocation: a blank event */
 					if (!(quirks & Q_SHARED)) { memcpy(m.stored, keep.stored, sizeof m.stored); memcpy(m.cyc, keep.cyc, sizeof m.cyc); }
-				} else if (!(quirks & Q_STALE)) {
+				}
+				if (!(quirks & Q_STALE)) {
+					/* what the other carriers had confirmed belongs to the old network; a CNI received
+					 * once so far may already be the new network's and stays */
 					int k;
-					for (k = 0; k < 3; k++) if (k != c) { m.stored[k] = 0; m.cyc[k] = 0; }
+					for (k = 0; k < 3; k++) if (k != c && ((quirks & Q_SHARED) || m.cyc[k] == 2)) { m.stored[k] = 0; m.cyc[k] = 0; }
 				}
 			}
 			m.nuid = id; m.src = c;
@@ -949,6 +954,14 @@ static void evaluate_model(int quirks, int with_twin)
 	}
 	n_ev = model_run(quirks, 0, evs_ref);
 	model_observe(ph);
+	if (vf_verbose) {
+		vf_log("   reference model with deviations%s%s%s%s:\n", quirks ? "" : " none", quirks & Q_STALE ? " stale" : "", quirks & Q_UNKNOWN ? " unknown" : "", quirks & Q_SHARED ? " shared" : "");
+		for (k = 0; k < n_ev; k++)
+			vf_log("      %s: %s nuid=%u vps=%03x 8301=%04x 8302=%04x name='%s'\n", rx_str(evs_ref[k].rx), evs_ref[k].type == VBI_EVENT_NETWORK ? "NETWORK" : "NETWORK_ID",
+				evs_ref[k].net.nuid, evs_ref[k].net.cni_vps, evs_ref[k].net.cni_8301, evs_ref[k].net.cni_8302, evs_ref[k].net.name);
+		for (k = 0; k < m_nreset; k++) vf_log("      cache cleared during #%d\n", m_reset[k]);
+		if (with_twin) for (k = 0; k < nphase; k++) vf_log("      twin quiet in phase %d: %d\n", k, tw_m.quiet[k]);
+	}
 	eval_only = 1; collecting = 1; n_vlist = 0;
 	rules_R1_R2_R3();
 	judge_phases(with_twin ? &tw_m : NULL);
@@ -1378,7 +1391,7 @@ static int run_exh(long idx, int maxlen)
 			int split = 0, identified = 0, twice = 0, e;
 			for (i = 0, k = 0; i < len; i++) { if (rxs[i].carrier > CR_8302 || rxs[i].cni == 0) continue; if (k == n1) { split = i; break; } k++; }
 			for (e = 0; e < n_ev; e++) if (evs[e].type == VBI_EVENT_NETWORK && evs[e].rx < split && evs[e].net.nuid) identified = 1;
-			for (i = split; i < len; i++) { int p = prev_on_carrier(i); if (rxs[i].carrier <= CR_8302 && p >= split && same_value(&rxs[p], &rxs[i])) twice = 1; }
+			for (i = split; i < len; i++) { int p = prev_on_carrier(i); if (rxs[i].carrier <= CR_8302 && rxs[i].cni != 0 && p >= split && same_value(&rxs[p], &rxs[i])) twice = 1; }
 			if (identified && twice) {
 				int nn = count_network_events(split, len, NULL);
 				vf_count("station_changes_known_to_known", 1);
@@ -1483,8 +1496,11 @@ static void selftest(void)
 		EXPECT("strict h1", n == 3 && evs_ref[0].type == VBI_EVENT_NETWORK && evs_ref[0].rx == 1 && evs_ref[0].net.nuid == (unsigned)A->id && evs_ref[1].type == VBI_EVENT_NETWORK_ID
 			&& evs_ref[2].type == VBI_EVENT_NETWORK_ID && evs_ref[2].rx == 3 && evs_ref[2].net.nuid == (unsigned)A->id && evs_ref[2].net.cni_vps == (int)U && m_nreset == 0);
 		n = model_run(Q_UNKNOWN, 0, evs_ref);   /* the unknown CNI revokes A (blank NETWORK, cache cleared), A comes back once */
-		EXPECT("Q_UNKNOWN h1", m_nreset == 1 && m_reset[0] == 3 && evs_ref[2].type == VBI_EVENT_NETWORK && evs_ref[2].net.nuid == 0 && evs_ref[2].net.cni_8301 == 0
-			&& evs_ref[3].type == VBI_EVENT_NETWORK && evs_ref[3].net.cni_vps == (int)U && evs_ref[3].net.cni_8301 == (int)A->cni[1]);
+		EXPECT("Q_UNKNOWN h1", m_nreset == 1 && m_reset[0] == 3 && evs_ref[2].type == VBI_EVENT_NETWORK && evs_ref[2].net.nuid == 0 && evs_ref[2].net.cni_vps == 0
+			&& evs_ref[3].type == VBI_EVENT_NETWORK && evs_ref[3].net.cni_vps == (int)U && evs_ref[3].net.cni_8301 == 0
+			&& n == 2 + 3 + 2 && evs_ref[5].rx == 5 && evs_ref[5].net.nuid == (unsigned)A->id);
+		n = model_run(Q_UNKNOWN | Q_STALE, 0, evs_ref);        /* the same, but A's confirmed CNI is not forgotten: A is not identified again */
+		EXPECT("Q_UNKNOWN|Q_STALE h1", m_nreset == 1 && n == 2 + 3 && evs_ref[3].net.cni_8301 == (int)A->cni[1]);
 		n = model_run(Q_ALL, 0, evs_ref);       /* with the shared counter and all CNIs forgotten: revoked and identified again and again */
 		EXPECT("Q_ALL h1", m_nreset == 2 && m_reset[0] == 3 && m_reset[1] == 7 && n == 2 + 3 + 2 + 3 + 2 && evs_ref[5].rx == 5 && evs_ref[5].type == VBI_EVENT_NETWORK && evs_ref[5].net.nuid == (unsigned)A->id);
 		/* h2, zapping back to a station whose carrier was silent meanwhile */
